@@ -39,12 +39,13 @@ import (
 var curWorld *World
 
 type baselineFns struct {
-	loaded bool
-	fns    map[string]bool
-	sigs   map[string]string   // reviewed function -> package|receiver|exported|signature
-	prints map[string][]string // reviewed function -> what its body mentions (callees, string literals)
-	inl    map[string]bool     // reviewed function was a single `return <expr>` (read as that expression)
-	types  map[string]bool     // named types of the reviewed tree ("pkg.Type")
+	loaded   bool
+	fns      map[string]bool
+	sigs     map[string]string   // reviewed function -> package|receiver|exported|signature
+	prints   map[string][]string // reviewed function -> what its body mentions (callees, string literals)
+	inl      map[string]bool     // reviewed function was a single `return <expr>` (read as that expression)
+	types    map[string]bool     // named types of the reviewed tree ("pkg.Type")
+	partials map[string]bool     // partial names of the reviewed templates
 }
 
 func (w *World) loadBaseline(verifDir string) error {
@@ -67,6 +68,19 @@ func (w *World) loadBaseline(verifDir string) error {
 	w.base.sigs = map[string]string{}
 	w.base.prints = map[string][]string{}
 	w.base.inl = map[string]bool{}
+	// the partial names of the reviewed templates (a partial under a new name is read as part of
+	// the templates that invoke it, see inlineNewPartials)
+	w.base.partials = map[string]bool{}
+	if pb, err := os.ReadFile(filepath.Join(verifDir, "tables", "partials.json")); err == nil {
+		var pd struct {
+			Groups map[string]any `json:"partial_token_groups"`
+		}
+		if json.Unmarshal(pb, &pd) == nil {
+			for k := range pd.Groups {
+				w.base.partials[k] = true
+			}
+		}
+	}
 	w.base.types = map[string]bool{}
 	for _, t := range doc.Types {
 		w.base.types[t] = true
@@ -924,7 +938,12 @@ func (w *World) unknownInputs(verifDir, host string, a *Atoms) []string {
 					ok = true
 				}
 			}
-			// the call of an absorbed helper no longer exists as a decision input
+			// a field that is only the way to a struct whose fields the reviewed function
+			// already consulted (`v.context` on the way to `context.ArbitrationProvider`) carries
+			// no decision of its own
+			if !ok && known != nil && w.isPathToKnown(x, known) {
+				ok = true
+			}
 			if !ok {
 				set[x] = true
 			}
@@ -1539,4 +1558,45 @@ func sigParamTypes(sig string) map[string]int {
 		}
 	}
 	return out
+}
+
+// isPathToKnown: atom is a qualified field "pkg.Type.f" whose type is a (pointer to a) struct
+// type some field of which is among the known atoms.
+func (w *World) isPathToKnown(atom string, known map[string]bool) bool {
+	i := strings.LastIndex(atom, ".")
+	if i <= 0 || strings.Contains(atom, ":") {
+		return false
+	}
+	owner, fname := atom[:i], atom[i+1:]
+	j := strings.LastIndex(owner, ".")
+	if j <= 0 {
+		return false
+	}
+	nt := w.lookupType(owner[:j], owner[j+1:])
+	if nt == nil {
+		return false
+	}
+	st, ok := nt.Underlying().(*types.Struct)
+	if !ok {
+		return false
+	}
+	for k := 0; k < st.NumFields(); k++ {
+		if st.Field(k).Name() != fname {
+			continue
+		}
+		ft, ok := derefNamed(st.Field(k).Type())
+		if !ok || ft.Obj().Pkg() == nil {
+			return false
+		}
+		if _, isStruct := ft.Underlying().(*types.Struct); !isStruct {
+			return false
+		}
+		prefix := short(ft.Obj().Pkg().Path()) + "." + ft.Obj().Name() + "."
+		for kn := range known {
+			if strings.HasPrefix(kn, prefix) {
+				return true
+			}
+		}
+	}
+	return false
 }
